@@ -633,3 +633,75 @@ Proof.
     destruct pc, (mode_eqb cm _), pi, po, pv, pf, ps, (len_ok 8 m), (off_ok 8 s); cbn in H; try discriminate H;
     rewrite ?Hop; cbn [first_err]; assumption.
 Qed.
+
+(* ---------- ECB / CBC: a length that is not a block multiple is refused, nothing written ---------- *)
+Theorem aes_ecb_cbc_reject_partial : forall fn p c s m, block_mode fn = true -> len_ok 16 m = false ->
+  r_err (aes_call fn p c s m) <> OK /\ r_out (aes_call fn p c s m) = None /\ r_st (aes_call fn p c s m) = s.
+Proof.
+  intros fn p c s m Hb Hl.
+  assert (Hr : r_err (aes_call fn p c s m) <> OK).
+  { apply aes_invalid_rejected. unfold call_valid. rewrite Hb, Hl.
+    destruct (p_ctx p), (mode_eqb (a_mode c) fn), (p_in p), (p_out p); reflexivity. }
+  split; [exact Hr|]. apply aes_reject_writes_nothing. exact Hr.
+Qed.
+Theorem d_ecb_cbc_reject_partial : forall blk o cm fn p s m, block_mode fn = true -> len_ok 8 m = false ->
+  r_err (d_call blk o cm fn p s m) <> OK /\ r_out (d_call blk o cm fn p s m) = None /\ r_st (d_call blk o cm fn p s m) = s.
+Proof.
+  intros blk o cm fn p s m Hb Hl.
+  assert (Hr : r_err (d_call blk o cm fn p s m) <> OK).
+  { apply d_invalid_rejected. unfold call_valid. rewrite Hb, Hl.
+    destruct (p_ctx p), (mode_eqb cm fn), (p_in p), (p_out p); reflexivity. }
+  split; [exact Hr|]. apply d_reject_writes_nothing. exact Hr.
+Qed.
+
+(* ---------- set_key rejects what it must ---------- *)
+Theorem set_key_rejects : forall pk pc p2 p3 o fn bits key k2 k3,
+  (op_valid o = false \/ mode_valid fn = false \/ pk = false \/ pc = false -> fst (aes_set_key pk pc o fn bits key) <> OK) /\
+  (aes_params bits = None -> fst (aes_set_key pk pc o fn bits key) <> OK) /\
+  (op_valid o = false \/ mode_valid fn = false \/ pk = false \/ pc = false -> fst (des_set_key pk pc o fn key) <> OK) /\
+  (op_valid o = false \/ mode_valid fn = false \/ pk = false \/ p2 = false \/ p3 = false \/ pc = false ->
+   fst (tdes_set_key pk p2 p3 pc o fn key k2 k3) <> OK).
+Proof.
+  intros. repeat split.
+  - intros H. unfold aes_set_key. destruct o, fn, pk, pc; cbn [first_err op_valid mode_valid] in *;
+      try (cbn; discriminate); destruct H as [H|[H|[H|H]]]; discriminate H.
+  - intros H. unfold aes_set_key, aes_round_keys. rewrite H.
+    destruct (first_err _); cbn; discriminate.
+  - intros H. unfold des_set_key. destruct o, fn, pk, pc; cbn [first_err op_valid mode_valid] in *;
+      try (cbn; discriminate); destruct H as [H|[H|[H|H]]]; discriminate H.
+  - intros H. unfold tdes_set_key. destruct o, fn, pk, p2, p3, pc; cbn [first_err op_valid mode_valid is_enc] in *;
+      try (cbn; discriminate); destruct H as [H|[H|[H|[H|[H|H]]]]]; discriminate H.
+Qed.
+
+(* ---------- non-vacuity: the hypotheses of the API theorems are met by concrete inputs ---------- *)
+Definition ex_key : list N := [0x2b;0x7e;0x15;0x16;0x28;0xae;0xd2;0xa6;0xab;0xf7;0x15;0x88;0x09;0xcf;0x4f;0x3c].
+Definition ex_st (bs : nat) : st := {| s_iv := map N.of_nat (seq 0 bs); s_off := 0; s_sb := repeat 0 bs |}.
+Definition ex_msg (n : nat) : list N := map (fun i => N.of_nat (7 * i mod 256)) (seq 0 n).
+
+Lemma bytes_dec : forall l, forallb (fun x => x <? 256) l = true -> bytes l.
+Proof. intros l H. unfold bytes, byte. apply Forall_forall. intros x Hx. rewrite forallb_forall in H. apply N.ltb_lt, H, Hx. Qed.
+
+Example aes_hyps_nonvacuous :
+  (exists ce cd, aes_set_key true true OpEnc CBC 128 ex_key = (OK, Some ce) /\
+                 aes_set_key true true OpDec CBC 128 ex_key = (OK, Some cd)) /\
+  length ex_key = key_bytes 128 /\ bytes ex_key /\ st_ok 16 (ex_st 16) /\ msg_ok 16 CBC (ex_msg 48) /\ msg_ok 16 CTR (ex_msg 37).
+Proof.
+  split; [do 2 eexists; split; vm_compute; reflexivity|].
+  repeat split; try (apply bytes_dec; vm_compute; reflexivity); try reflexivity; try discriminate.
+Qed.
+Example des_hyps_nonvacuous :
+  (exists ce cd, des_set_key true true OpEnc CFB (firstn 8 ex_key) = (OK, Some ce) /\
+                 des_set_key true true OpDec CFB (firstn 8 ex_key) = (OK, Some cd)) /\
+  (exists ce cd, tdes_set_key true true true true OpEnc ECB (firstn 8 ex_key) (skipn 8 ex_key) (firstn 8 ex_key) = (OK, Some ce) /\
+                 tdes_set_key true true true true OpDec ECB (firstn 8 ex_key) (skipn 8 ex_key) (firstn 8 ex_key) = (OK, Some cd)) /\
+  st_ok 8 (ex_st 8) /\ msg_ok 8 CFB (ex_msg 13) /\ msg_ok 8 ECB (ex_msg 24).
+Proof.
+  split; [do 2 eexists; split; vm_compute; reflexivity|].
+  split; [do 2 eexists; split; vm_compute; reflexivity|].
+  repeat split; try (apply bytes_dec; vm_compute; reflexivity); try reflexivity; try discriminate.
+Qed.
+(* the rejection theorems are not vacuous either: a 17-byte ECB call and an offset of 16 *)
+Example reject_nonvacuous : len_ok 16 (ex_msg 17) = false /\
+  call_valid 16 CFB CFB all_ptrs {| s_iv := []; s_off := 16; s_sb := [] |} [] = false /\
+  call_valid 8 CTR CTR all_ptrs (ex_st 8) (ex_msg 5) = true.
+Proof. vm_compute. auto. Qed.
